@@ -3,5 +3,5 @@ CONSTANTS DBits = 2
           N = 4
           ByteBits = 1
           CarryVals = "some"
-INVARIANTS MulOK MidOK DivOK RoundDivOK CountOK FmtOK ConvOK
+INVARIANTS MulOK MidOK DivOK RoundDivOK ShiftWrapOK CountOK FmtOK ConvOK
 CHECK_DEADLOCK FALSE
